@@ -54,14 +54,21 @@ func vC13Exercise(img []byte, limit int) {
 	vsym.Reach("end")
 }
 
-var vsymC13Field = -1 // -1: all fields (forked), else only this field index
+var vsymC13Field = -1 // -1: all fields (forked); -2: all but fields 0 and 2; else only this field index
 
 // VC13_HeaderFields: one header field of the test image at a time takes every value.
 func VC13_HeaderFields() {
 	img := append([]byte{}, vsym.Fixture("authenticode/testdata/test.pecoff")...)
 	fields := vC13Fields(img)
 	k := vsymC13Field
-	if k < 0 {
+	if k == -2 {
+		// every field except e_lfanew (0) and PointerToSymbolTable (2): those two have long, solver-heavy
+		// paths and are run as harness instances of their own
+		k = 1 + vsym.Pick("field", len(fields)-2)
+		if k >= 2 {
+			k++
+		}
+	} else if k < 0 {
 		k = vsym.Pick("field", len(fields))
 	}
 	f := fields[k]
